@@ -37,9 +37,22 @@ func checkC10(h *History, vs []*opView) {
 			lowerOf[tok] = v.lower
 		}
 	}
+	// every question a client sent that decodes at all (garbage included)
+	askedQ := map[string]bool{}
+	for _, v := range vs {
+		if v.q != nil && len(v.q.Q) > 0 {
+			for _, q := range v.q.Q {
+				askedQ[fmt.Sprintf("%x/%d/%d", []byte(q.Name.Lower()), q.Type, q.Class)] = true
+			}
+		}
+	}
 	for _, tag := range h.UpOrder {
 		u := h.Ups[tag]
 		for _, q := range u.Queries {
+			if q.Decoded && q.Token == "" && q.NQ == 1 && !strings.HasPrefix(peersTokenOrG(q.Name), "g") && !askedQ[fmt.Sprintf("%x/%d/%d", []byte(q.Name.Lower()), q.Type, q.Class)] {
+				// a name without a token label: still has to be some client's question
+				h.S.Fail(prop, "question-nobody-asked", "upstream %s received a query for %s type %d class %d, which no client asked", tag, q.Name, q.Type, q.Class)
+			}
 			if !q.Decoded || q.Token == "" {
 				continue
 			}
